@@ -4,6 +4,7 @@
 -/
 import PcVerif.Model.Scc.Writer
 import PcVerif.Lemmas.SccRowLemmas
+import PcVerif.Lemmas.SccFileLemmas
 namespace PcVerif.Props.C17
 open PcVerif PcVerif.Scc PcVerif.SccW
 
@@ -85,6 +86,49 @@ example : ∀ c ∈ "Hello, World 42!".toList, Basic c := by
   have key : ∀ c ∈ "Hello, World 42!".toList, Generated.Scc.charToCode.any (fun e => e.1 == String.singleton c) = true := by
     decide +kernel
   obtain ⟨e, he, hk⟩ := List.any_eq_true.mp (key c hc)
+  exact ⟨e, he, by simpa using hk⟩
+
+/-! ### whole captions and whole files -/
+
+/-- **C17 (a whole written caption re-reads).** the words the writer sends for one caption — `94ae 94ae 9420 9420`, per row
+    the preamble twice and the row's character words, `942c 942c 942f 942f` — read by the reader model between two captions
+    (pop-on mode, nothing pending in the doubling memory but a character word, no text in the buffer being composed) and
+    followed by any further words: every doubled control code is executed once, no character word is taken for anything
+    else, and what the reader holds (stored captions, queued caption, buffer) grows by exactly the caption's characters, row
+    by row, in order; afterwards the reader is between captions again -/
+theorem written_caption_rereads (lines : List (List Char)) (hn : lines.length ≤ 15) (hb : ∀ l ∈ lines, ∀ c ∈ l, Basic c)
+    (rest : List String) (r : Reader) (hq : Quiet r.lastCmd) (ha : r.active = .pop) (he : itext r.buf.coll = []) :
+    ∃ r', words r (captionWords lines ++ rest) = words r' rest ∧ r'.lastCmd = "" ∧ r'.active = .pop ∧
+      itext r'.buf.coll = [] ∧ heldQ r' = heldQ r ++ vis lines.flatten :=
+  caption_read lines hn hb rest r hq ha he
+
+/-- **C17 (the writer's output is such a file).** for every caption set (rows of basic characters, at most 15 per caption, any
+    times) the text the writer model produces is: header, empty line, and per caption the line
+    `<time code>\t<the caption's words separated by single blanks>` — the pre-roll pass moves time codes and drops clearing
+    lines, never a code word -/
+theorem write_is_file (caps : List (List Str × Rat × Rat)) (hok : ∀ c ∈ caps, c.1.length ≤ 15 ∧ ∀ l ∈ c.1, ∀ x ∈ l, Basic x) :
+    ∃ fcs : List FileCap, write caps = fileText fcs ∧ (∀ c ∈ fcs, c.ok) ∧ fcs.map (·.lines) = caps.map (·.1) :=
+  SccW.write_is_file caps hok
+
+/-- **C17 (write, then read: the same characters).** for every such caption set and every reading offset the reader model,
+    run on the text the writer model produces — header line, `splitlines`, lower-casing, time-code / word splitting, the
+    doubling memory, every control code, the final flush — ends up holding exactly the captions' characters, caption by
+    caption and row by row, in order: none lost, none doubled, none taken for a command -/
+theorem written_file_rereads (caps : List (List Str × Rat × Rat)) (hok : ∀ c ∈ caps, c.1.length ≤ 15 ∧ ∀ l ∈ c.1, ∀ x ∈ l, Basic x)
+    (off : Rat) : heldQ (run (write caps) off) = vis (caps.flatMap fun c => c.1.flatten) :=
+  SccW.written_file_rereads caps hok off
+
+/-- non-vacuity: a two-row caption of ordinary characters meets the hypotheses -/
+example : ∀ c ∈ [("Hello,".toList :: ["World 42!".toList], (1000000 : Rat), (3000000 : Rat))],
+    c.1.length ≤ 15 ∧ ∀ l ∈ c.1, ∀ x ∈ l, Basic x := by
+  intro c hc
+  simp only [List.mem_singleton] at hc
+  subst hc
+  refine ⟨by decide, ?_⟩
+  have key : ∀ l ∈ ["Hello,".toList, "World 42!".toList], ∀ x ∈ l,
+      Generated.Scc.charToCode.any (fun e => e.1 == String.singleton x) = true := by decide +kernel
+  intro l hl x hx
+  obtain ⟨e, he, hk⟩ := List.any_eq_true.mp (key l hl x hx)
   exact ⟨e, he, by simpa using hk⟩
 
 end PcVerif.Props.C17
